@@ -9,6 +9,7 @@
 From Coq Require Import List NArith ZArith String Bool.
 From RecordUpdate Require Import RecordSet.
 From DT Require Import GenStatus GenEvent GenMsgType FsmTypes GenFsm Fsm Machine View Caches Msg Node NodeCorr GenHandlers.
+From DT Require C04Proofs.
 Import ListNotations.
 
 (* what a caller can tell from a returned error *)
@@ -21,11 +22,16 @@ Proof. split; reflexivity. Qed.
 
 (* the tactic: run both programs instruction by instruction on the same state, splitting on every answer
    and every test, until both sides are values *)
+(* asking for the node's own peer id changes nothing *)
+Lemma run_instr_self s : run_instr s ISelf = (n_self (s_node s), s).
+Proof. reflexivity. Qed.
+
 Ltac split_bool b :=
   lazymatch b with
   | negb ?x => split_bool x
   | andb ?x _ => split_bool x
   | orb ?x _ => split_bool x
+  | context [if ?c then _ else _] => split_bool c
   | _ => destruct b eqn:?
   end.
 
@@ -39,14 +45,15 @@ Ltac split_val x :=
   end.
 
 Ltac step_both :=
-  cbn [run bind exec fst snd andthen negb andb orb send send0 ret_ok ret_of_send swallow_terminated report_ret nret_is];
+  cbn [run bind exec fst snd andthen negb andb orb send send0 ret_ok ret_of_send swallow_terminated report_ret nret_is v_type v_node];
+  rewrite ?run_instr_self;
   match goal with
+  | |- context [if ?b then _ else _] => split_bool b
+  | |- context [match ?r with ManagerPeerCreatePull => _ | _ => _ end] => destruct r
   | |- context [run_instr ?s ?i] =>
       let x := fresh "x" in let s' := fresh "s" in destruct (run_instr s i) as [x s']; split_val x
   | |- context [match ?o with Some _ => _ | None => _ end] => destruct o
-  | |- context [if ?b then _ else _] => split_bool b
   | |- context [match ?r with SOk => _ | SNotFound => _ | STerminated => _ end] => destruct r
-  | |- context [match ?r with ManagerPeerCreatePull => _ | _ => _ end] => destruct r
   | |- context [let '(_, _) := ?p in _] => destruct p
   end.
 
@@ -76,13 +83,13 @@ Proof. reflexivity. Qed.
 Theorem restart_received_push_is_source : forall c s,
   same_run (run (gen_restartManagerPeerReceivePush c) s) (run (restart_received c) s).
 Proof.
-  intros c s. unfold gen_restartManagerPeerReceivePush, restart_received, validate_restart. both.
+  intros c s. unfold gen_restartManagerPeerReceivePush, gen_validateRestart, restart_received, validate_restart. both.
 Qed.
 
 Theorem restart_received_pull_is_source : forall c s,
   same_run (run (gen_restartManagerPeerReceivePull c) s) (run (restart_received c) s).
 Proof.
-  intros c s. unfold gen_restartManagerPeerReceivePull, restart_received, validate_restart. both.
+  intros c s. unfold gen_restartManagerPeerReceivePull, gen_validateRestart, restart_received, validate_restart. both.
 Qed.
 
 Theorem open_push_restart_is_source : forall c s,
@@ -149,7 +156,7 @@ Theorem restart_channel_is_source : forall k s,
 Proof.
   intros k s. unfold with_self, gen_RestartDataTransferChannel, restart_channel, gen_channelDataTransferType,
     gen_restartManagerPeerReceivePush, gen_restartManagerPeerReceivePull, gen_openPullRestartChannel, gen_openPushRestartChannel,
-    restart_received, open_pull_restart, open_push_restart, validate_restart, send, send0.
+    restart_received, open_pull_restart, open_push_restart, validate_restart, gen_validateRestart, send, send0.
   both.
 Qed.
 
@@ -219,6 +226,78 @@ Theorem process_update_voucher_is_source : forall k m,
   else r <- send k NewVoucher (voucher_arg {| v_type := g_vtype m; v_node := g_vnode m |}) ;; Ret (None, r).
 Proof. intros k m. unfold gen_processUpdateVoucher. destruct (N.eqb (g_vnode m) 0); reflexivity. Qed.
 
+(* ---------- impl/receiving_requests.go: validation, new requests, restart requests ---------- *)
+(* an error value of the source against the model's "an error occurred" flag *)
+Definition err_rel (r : nret) (b : bool) : Prop := negb (ret_ok r) = b.
+
+Definition same_val (x : (valres * nret) * nstate) (y : (valres * bool) * nstate) : Prop :=
+  fst (fst x) = fst (fst y) /\ err_rel (snd (fst x)) (snd (fst y)) /\ snd x = snd y.
+
+Definition same_val3 (x : (bool * valres * nret) * nstate) (y : (bool * valres * bool) * nstate) : Prop :=
+  fst (fst (fst x)) = fst (fst (fst y)) /\ snd (fst (fst x)) = snd (fst (fst y)) /\
+  err_rel (snd (fst x)) (snd (fst y)) /\ snd x = snd y.
+
+Ltac finish3 := cbn; unfold same_val, same_val3, same_run2, same_run, same_class, err_rel; cbn; repeat split; try reflexivity; try congruence.
+Ltac both3 := repeat step_both; finish3.
+
+Theorem validate_restart_is_source : forall c s,
+  same_val (run (gen_validateRestart c) s) (run (validate_restart c) s).
+Proof. intros c s. unfold gen_validateRestart, validate_restart. both3. Qed.
+
+Theorem record_rejected_is_source : forall k vr s,
+  same_run (run (gen_recordRejectedValidationEvents k vr) s) (run (record_rejected k vr) s).
+Proof. intros k vr s. unfold gen_recordRejectedValidationEvents, record_rejected, send, send0. both. Qed.
+
+Theorem record_accepted_is_source : forall c vr s,
+  same_run (run (gen_recordAcceptedValidationEvents c vr) s) (run (record_accepted c vr) s).
+Proof. intros c vr s. unfold gen_recordAcceptedValidationEvents, record_accepted, send, send0. both. Qed.
+
+Theorem accept_request_is_source : forall k m s,
+  same_val (run (self <- exec ISelf ;; gen_acceptRequest self k m) s) (run (accept_request k m) s).
+Proof.
+  intros k m s. unfold gen_acceptRequest, accept_request, gen_recordAcceptedValidationEvents, record_accepted, send, send0. both3.
+Qed.
+
+Theorem restart_request_is_source : forall k m s,
+  same_val3 (run (self <- exec ISelf ;; gen_restartRequest self k m) s) (run (restart_request k m) s).
+Proof.
+  intros k m s. unfold gen_restartRequest, restart_request, gen_validateRestartRequest, validate_restart_request,
+    gen_validateRestart, validate_restart, gen_recordRejectedValidationEvents, record_rejected,
+    gen_recordAcceptedValidationEvents, record_accepted, send, send0.
+  both3.
+Qed.
+
+Theorem receive_new_request_is_source : forall k m s,
+  same_run2 (run (self <- exec ISelf ;; gen_receiveNewRequest self k m) s) (run (receive_new_request k m) s).
+Proof.
+  intros k m s. unfold gen_receiveNewRequest, receive_new_request, request_error_ret, request_error,
+    gen_acceptRequest, accept_request, gen_recordAcceptedValidationEvents, record_accepted, send, send0. both3.
+Qed.
+
+Theorem receive_restart_request_is_source : forall k m s,
+  same_run2 (run (self <- exec ISelf ;; gen_receiveRestartRequest self k m) s) (run (receive_restart_request k m) s).
+Proof.
+  intros k m s. unfold gen_receiveRestartRequest, receive_restart_request, request_error_ret, request_error,
+    gen_restartRequest, restart_request, gen_validateRestartRequest, validate_restart_request,
+    gen_validateRestart, validate_restart, gen_recordRejectedValidationEvents, record_rejected,
+    gen_recordAcceptedValidationEvents, record_accepted, send, send0.
+  both3.
+Qed.
+
+Theorem on_request_received_is_source : forall k m s,
+  same_run2 (run (gen_OnRequestReceived (n_self (s_node s)) k m) s) (run (on_request_received k m) s).
+Proof.
+  intros k m s.
+  unfold gen_OnRequestReceived, on_request_received, request_kind,
+    gen_receiveRestartRequest, receive_restart_request, gen_receiveNewRequest, receive_new_request,
+    gen_receiveUpdateRequest, receive_update_request, gen_processUpdateVoucher, request_error_ret, request_error,
+    gen_restartRequest, restart_request, gen_acceptRequest, accept_request,
+    gen_validateRestartRequest, validate_restart_request, gen_validateRestart, validate_restart,
+    gen_recordRejectedValidationEvents, record_rejected, gen_recordAcceptedValidationEvents, record_accepted,
+    gen_pauseOther, gen_resumeOther, pause_other, resume_other, send, send0.
+  both3.
+Qed.
+
 (* ---------- the statements the property files restate ---------- *)
 Definition runs_like (g m : prog nret) : Prop := forall s, same_run (run g s) (run m s).
 
@@ -277,4 +356,44 @@ Theorem completion_handlers_are_source : forall k failed,
   runs_like (gen_OnChannelOpened k) (on_channel_opened k).
 Proof.
   intros k failed. split; intros s; [apply on_channel_completed_is_source | apply on_channel_opened_is_source].
+Qed.
+
+(* requests and their validation (C04, C05, C18) *)
+Theorem request_handlers_are_source : forall k m c vr s,
+  same_val (run (self <- exec ISelf ;; gen_acceptRequest self k m) s) (run (accept_request k m) s) /\
+  same_val3 (run (self <- exec ISelf ;; gen_restartRequest self k m) s) (run (restart_request k m) s) /\
+  same_run2 (run (gen_OnRequestReceived (n_self (s_node s)) k m) s) (run (on_request_received k m) s) /\
+  same_val (run (gen_validateRestart c) s) (run (validate_restart c) s) /\
+  same_run (run (gen_recordRejectedValidationEvents k vr) s) (run (record_rejected k vr) s) /\
+  same_run (run (gen_recordAcceptedValidationEvents c vr) s) (run (record_accepted c vr) s).
+Proof.
+  intros k m c vr s. split; [|split; [|split; [|split; [|split]]]].
+  - apply accept_request_is_source.
+  - apply restart_request_is_source.
+  - apply on_request_received_is_source.
+  - apply validate_restart_is_source.
+  - apply record_rejected_is_source.
+  - apply record_accepted_is_source.
+Qed.
+
+(* responses, and the counterparty's pause / resume (C03, C05, C11, C19) *)
+Theorem response_handlers_are_source : forall k m s,
+  same_run (run (with_self (fun self => gen_OnResponseReceived self k m)) s) (run (on_response_received k m) s) /\
+  same_run2 (run (self <- exec ISelf ;; gen_receiveUpdateRequest self k m) s) (run (receive_update_request k m) s).
+Proof. intros k m s. split; [apply on_response_received_is_source | apply receive_update_request_is_source]. Qed.
+
+(* block reports: the pause signal and who is told (C07, C08) *)
+Theorem report_handlers_are_source : forall k size index unique s,
+  (same_run (run (gen_OnDataReceived k size index unique) s)
+            (snd (fst (run (on_data KReceived k size index unique) s)), snd (run (on_data KReceived k size index unique) s)) /\
+   fst (fst (run (on_data KReceived k size index unique) s)) = None) /\
+  same_run2 (run (gen_OnDataQueued k size index unique) s) (run (on_data KQueued k size index unique) s) /\
+  (same_run (run (gen_OnDataSent k size index unique) s)
+            (snd (fst (run (on_data KSent k size index unique) s)), snd (run (on_data KSent k size index unique) s)) /\
+   fst (fst (run (on_data KSent k size index unique) s)) = None).
+Proof.
+  intros k size index unique s. split; [|split].
+  - apply on_data_received_is_source.
+  - apply on_data_queued_is_source.
+  - apply on_data_sent_is_source.
 Qed.
